@@ -311,6 +311,7 @@ func checkC11(c *Check) {
 	// (a pointer to a per-loop variable shared by all managers deploys the last lease's workloads into every namespace)
 	c.loopVarAddressEscapes("R3", []string{"provider/cluster", "provider/cluster/kube"})
 
+	c.exactGroupNames("R3")
 	// ---- R3 limits / requests
 	cont := l.Func(kubePkg, "deploymentBuilder", "container")
 	c.Analysed(fnName(cont))
@@ -397,35 +398,7 @@ func checkC11(c *Check) {
 	}
 
 	// ---- R4 namespace derivation
-	ln := l.Func(kubePkg, "", "lidNS")
-	{
-		s := ""
-		for _, r := range successReturns(ln) {
-			s = Sym(r.Results[0])
-		}
-		hashed := ""
-		eachInstr(ln, func(i ssa.Instruction) {
-			if st, ok := i.(*ssa.Store); ok && Sym(st.Addr) == "&local:sha" {
-				hashed = Sym(st.Val)
-			}
-		})
-		ok := strings.HasPrefix(s, "strings.ToLower(base32.Encoding.EncodeToString(base32.Encoding.WithPadding(*g:base32.HexEncoding, -1), &local:sha[:]))") && hashed == "sha256.Sum224(conv:[]byte(types.LeaseID.String(p:lid)))"
-		c.Ob("R4", "lease namespace = lower(base32hex-nopad(sha224(lease id)))", ln.Pos(), ok, short(s)+" over "+hashed)
-	}
-	for _, spec := range [][3]string{{"x/market/types", "LeaseID", "BidID("}, {"x/market/types", "BidID", "OrderID(|Provider"}, {"x/market/types", "OrderID", "GroupID(|OSeq"}, {"x/deployment/types", "GroupID", "DeploymentID(|GSeq"}, {"x/deployment/types", "DeploymentID", "Owner|DSeq"}} {
-		f := l.Func(spec[0], spec[1], "String")
-		s := ""
-		for _, r := range successReturns(f) {
-			s = Sym(r.Results[0])
-		}
-		ok := true
-		for _, part := range strings.Split(spec[2], "|") {
-			if !strings.Contains(s, part) {
-				ok = false
-			}
-		}
-		c.Ob("R4", spec[1]+".String() covers "+spec[2], f.Pos(), ok, short(s))
-	}
+	c.leaseNamespaceRule("R4")
 
 	// ---- R5 network policy
 	np := l.Func(kubePkg, "netPolBuilder", "create")
@@ -932,4 +905,66 @@ func resourceListRole(fn *ssa.Function, m ssa.Value) string {
 		return ""
 	}
 	return role
+}
+
+// leaseNamespaceRule: the namespace a lease's workloads live in is a hash of the lease id's string, and that string
+// covers all five id fields (shared by C11-R4 and C09-R4: the gateway scopes a tenant's requests by it).
+func (c *Check) leaseNamespaceRule(rule string) {
+	l := c.L
+	ln := l.Func(kubePkg, "", "lidNS")
+	{
+		s := ""
+		for _, r := range successReturns(ln) {
+			s = Sym(r.Results[0])
+		}
+		hashed := ""
+		eachInstr(ln, func(i ssa.Instruction) {
+			if st, ok := i.(*ssa.Store); ok && Sym(st.Addr) == "&local:sha" {
+				hashed = Sym(st.Val)
+			}
+		})
+		ok := strings.HasPrefix(s, "strings.ToLower(base32.Encoding.EncodeToString(base32.Encoding.WithPadding(*g:base32.HexEncoding, -1), &local:sha[:]))") && hashed == "sha256.Sum224(conv:[]byte(types.LeaseID.String(p:lid)))"
+		c.Ob(rule, "lease namespace = lower(base32hex-nopad(sha224(lease id)))", ln.Pos(), ok, short(s)+" over "+hashed)
+	}
+	for _, spec := range [][3]string{{"x/market/types", "LeaseID", "BidID("}, {"x/market/types", "BidID", "OrderID(|Provider"}, {"x/market/types", "OrderID", "GroupID(|OSeq"}, {"x/deployment/types", "GroupID", "DeploymentID(|GSeq"}, {"x/deployment/types", "DeploymentID", "Owner|DSeq"}} {
+		f := l.Func(spec[0], spec[1], "String")
+		s := ""
+		for _, r := range successReturns(f) {
+			s = Sym(r.Results[0])
+		}
+		ok := true
+		for _, part := range strings.Split(spec[2], "|") {
+			if !strings.Contains(s, part) {
+				ok = false
+			}
+		}
+		c.Ob(rule, spec[1]+".String() covers "+spec[2], f.Pos(), ok, short(s))
+	}
+
+}
+
+// exactGroupNames: the chain, the manifest validation and the duplicate-name checks compare group names exactly, so
+// "web" and "WEB" are two groups. Wherever the provider picks a manifest group or a reservation by name it must
+// compare exactly too: a case-insensitive match hands a lease the workloads (and limits) of another group.
+func (c *Check) exactGroupNames(rule string) {
+	l := c.L
+	n := 0
+	for _, rel := range []string{"provider/event", "provider/cluster", "provider/manifest", "validation"} {
+		for _, fn := range l.pkgFuncs(rel) {
+			for _, call := range callsInOwn(fn) {
+				full := calleeFull(call)
+				if full != "strings.EqualFold" && full != "strings.ToLower" && full != "strings.ToUpper" {
+					continue
+				}
+				for _, a := range call.Common().Args {
+					s := Sym(a)
+					if strings.HasSuffix(s, ".Name") || strings.Contains(s, "GetName(") {
+						n++
+						c.Ob(rule, "group names are compared exactly in "+fnName(fn), call.Pos(), false, full+" on "+short(s)+": names that differ only in case are distinct groups on chain; matching them here deploys / reserves for the wrong group")
+					}
+				}
+			}
+		}
+	}
+	c.Ob(rule, "no case-insensitive comparison of group names on the provider side", l.Func("provider/event", "ManifestReceived", "ManifestGroup").Pos(), n == 0, "")
 }
